@@ -376,7 +376,11 @@ impl PoolSubject {
                 max_bytes_size: self.cfg.max_bytes,
             },
             pending_pool_tx_ttl: Duration::ZERO,
-            max_pending_pool_size_percentage: 50,
+            // Room for exactly one waiting transaction (by count, and by gas where the count is
+            // large): two transactions resolved by the same event are re-submitted by the worker
+            // in the iteration order of a `HashSet`, which is process-random and can matter near
+            // the pool limits.
+            max_pending_pool_size_percentage: if self.cfg.max_txs == 3 { 34 } else { 25 },
             metrics: false,
             ..Default::default()
         };
